@@ -11,6 +11,7 @@ import (
 	"fmt"
 	"os"
 	"os/exec"
+	"regexp"
 	"runtime"
 	"strings"
 	"sync"
@@ -147,7 +148,14 @@ func freeRun(r *c18Runner) string {
 		return "load failed: " + err.Error()
 	}
 	d.h.freeRunning = true
-	for i := range r.Ops {
+	freeRunRange(d, r, 0, len(r.Ops), &sb)
+	d.h.Close()
+	return sb.String()
+}
+
+// freeRunRange applies ops [from,to) of r to an existing runner and appends their trace lines.
+func freeRunRange(d *dynRunner, r *c18Runner, from, to int, sb *strings.Builder) {
+	for i := from; i < to; i++ {
 		op := r.Ops[i]
 		if op.K == "advance" || op.K == "release_all" {
 			continue
@@ -167,14 +175,28 @@ func freeRun(r *c18Runner) string {
 			d.last = last
 			time.Sleep(20 * time.Microsecond)
 		}
-		fmt.Fprintf(&sb, "%d %s|%s|%s|%v|%v", i, resp.Kind, resp.Node, resp.Text, resp.Tags, resp.Err != "")
+		fmt.Fprintf(sb, "%d %s|%s|%s|%v|%v", i, resp.Kind, resp.Node, resp.Text, resp.Tags, resp.Err != "")
 		for _, o := range resp.Opts {
-			fmt.Fprintf(&sb, "|%s/%v/%v", o.Text, o.Tags, o.Disabled)
+			fmt.Fprintf(sb, "|%s/%v/%v", o.Text, o.Tags, o.Disabled)
 		}
-		fmt.Fprintf(&sb, " store %s\n", fmtStrMap(d.h.StoreCanon()))
+		fmt.Fprintf(sb, " store %s\n", fmtStrMap(d.h.StoreCanon()))
 	}
-	d.h.Close()
-	return sb.String()
+}
+
+var varNameRE = regexp.MustCompile(`\$[A-Za-z_][A-Za-z0-9_]*`)
+
+// renamedWorld: the same scripts with every variable name made unique by a suffix, so that a
+// process which loads many of them meets thousands of distinct identifiers.
+func renamedWorld(w *World, suffix string) *World {
+	c := *w
+	c.Readers = nil
+	for _, r := range w.Readers {
+		if r.B64 == "" {
+			r.Text = varNameRE.ReplaceAllString(r.Text, "${0}"+suffix)
+		}
+		c.Readers = append(c.Readers, r)
+	}
+	return &c
 }
 
 func raceChildC18(rp *racePlan) {
@@ -200,7 +222,26 @@ func raceChildC18(rp *racePlan) {
 	}
 	close(start)
 	wg.Wait()
-	// a creation storm: every worker loads the plan's scripts again and again (several hundred loads per process)
+	// long-lived runners: created and driven half-way now, finished only after (one of them: during)
+	// the creation storm below. What the rest of the process loads meanwhile must not reach them.
+	type sentinel struct {
+		d   *dynRunner
+		sb  strings.Builder
+		mid int
+	}
+	sentinels := make([]*sentinel, len(cp.Runners))
+	for r := range cp.Runners {
+		d, err := newDyn(&cp.Runners[r].World, false)
+		if err != nil {
+			continue
+		}
+		d.h.freeRunning = true
+		sn := &sentinel{d: d, mid: len(cp.Runners[r].Ops) / 2}
+		freeRunRange(d, &cp.Runners[r], 0, sn.mid, &sn.sb)
+		sentinels[r] = sn
+	}
+	// a creation storm: every worker loads the plan's scripts again and again (several hundred loads per
+	// process), every load with its own variable names (thousands of distinct identifiers per process)
 	var wg2 sync.WaitGroup
 	start2 := make(chan struct{})
 	var loadFailures int64
@@ -212,7 +253,11 @@ func raceChildC18(rp *racePlan) {
 			<-start2
 			for k := 0; k < 40; k++ {
 				r := &cp.Runners[(w+k)%len(cp.Runners)]
-				d, err := newDyn(&r.World, false)
+				world := &r.World
+				if k%4 != 0 {
+					world = renamedWorld(world, fmt.Sprintf("_w%dk%d", w, k))
+				}
+				d, err := newDyn(world, false)
 				if err != nil {
 					mu.Lock()
 					loadFailures++
@@ -226,7 +271,17 @@ func raceChildC18(rp *racePlan) {
 		}(w)
 	}
 	close(start2)
+	if sn := sentinels[0]; sn != nil {
+		freeRunRange(sn.d, &cp.Runners[0], sn.mid, len(cp.Runners[0].Ops), &sn.sb) // while the storm runs
+		sn.mid = len(cp.Runners[0].Ops)
+	}
 	wg2.Wait()
+	for r, sn := range sentinels {
+		if sn != nil {
+			freeRunRange(sn.d, &cp.Runners[r], sn.mid, len(cp.Runners[r].Ops), &sn.sb)
+			sn.d.h.Close()
+		}
+	}
 	if loadFailures > 0 {
 		fmt.Printf("STRESS-MISMATCH %d of 640 concurrent loads of valid scripts failed\n", loadFailures)
 		return
@@ -235,6 +290,20 @@ func raceChildC18(rp *racePlan) {
 	compared := 0
 	for r := range cp.Runners {
 		solo := freeRun(&cp.Runners[r])
+		if sn := sentinels[r]; sn != nil {
+			compared++
+			if got := sn.sb.String(); got != solo {
+				a, b := strings.Split(solo, "\n"), strings.Split(got, "\n")
+				for i := 0; i < len(a) && i < len(b); i++ {
+					if a[i] != b[i] {
+						fmt.Printf("STRESS-MISMATCH runner %d, created before and finished after 640 other loads: alone %q, long-lived %q\n", r, a[i], b[i])
+						return
+					}
+				}
+				fmt.Printf("STRESS-MISMATCH runner %d, created before and finished after 640 other loads: trace lengths %d vs %d\n", r, len(a), len(b))
+				return
+			}
+		}
 		for j := range jobs {
 			if jobs[j].runner != r {
 				continue
